@@ -333,6 +333,7 @@ func c13Rest(c *Ctx) {
 	hasNextAbsentIsFalse(c)
 	deferredCounterCompared(c)
 	layoutAgreement(c)
+	genRound2(c)
 	directiveArgAssertChecked(c)
 	fieldSetAgreement(c)
 }
